@@ -1005,12 +1005,17 @@ func main() {
 	ncrowd := flag.Int("crowded", 2, "repetitions of the cancellation with many sibling contexts")
 	nburst := flag.Int("burst", 4, "")
 	burstPer := flag.Int("burstper", 60, "tasks per producer in a burst scenario")
+	pick := flag.String("pick", "", "extras X14 only: ShortestQueueIndex cases (quick | thorough)")
 	flag.Parse()
 	debug.SetMaxStack(64 << 20)
 	tasklane.VerifHook = hook
 	rng := rand.New(rand.NewSource(vio.Seed()))
 	w := vio.Create(*out)
 	defer w.Close()
+	if *pick != "" {
+		runPick(rng, w, *pick == "thorough")
+		return
+	}
 	for i := 0; i < *nrandom; i++ {
 		w.Put(runRandom(rng))
 	}
